@@ -35,6 +35,9 @@ def respelled_deck(task):
         deck, pre = c01.make(t)
     elif fam == 'c05':
         deck, pre = c05.make(t)
+    elif fam == 'c15':
+        from . import c15
+        deck, pre = c15.make(t)
     else:
         deck, pre = c12.make(t)
     rnd = random.Random(sd)
@@ -148,8 +151,31 @@ def shorthand_unit(sd):
                         conc.append(t)
                 code = ('from MIP.mip.datacard import expand_data_card\nout = expand_data_card(%r)\nprint(out)\n'
                         'raise AssertionError("expand_data_card(%s) = %%r does not equal the expansion of the shorthand" %% (out,))\n' % (conc, conc))
-                res['violations'].append({'signature': {'kind': 'shorthand'}, 'replay': '-',
-                                          'text': 'expand_data_card(%r) = %r, expansion is %r' % (toks, got, ref_)})
+                # concrete expected values for the replay: evaluate the reference expansion with the same integers
+                env = {}
+                kk = 2
+                import re as _re2
+                for t in toks:
+                    m2 = _re2.match(r'^(9\d{4}\.5)([a-zA-Z]*)$', t)
+                    if m2:
+                        env[m2.group(1)] = kk
+                        kk += 3
+                def val(x):
+                    if x is None:
+                        return None
+                    names = {list(stubs.REG[t].r.vars())[0]: v for t, v in env.items() if t in stubs.REG}
+                    from ..symx import _Env
+                    e_ = _Env(); e_.update({k_: Fr(v_) for k_, v_ in names.items()})
+                    return float(SymReal(x).r.evalf(e_))
+                want = [val(x) for x in ref_]
+                code2 = ('from MIP.mip.datacard import expand_data_card\nout, used = expand_data_card(%r)\nwant = %r\n'
+                         'assert len(out) == len(want) and all((a is None and b is None) or (a is not None and b is not None and abs(a - b) < 1e-9) '
+                         'for a, b in zip(out, want)), "expand_data_card(%s) = %%r, the expansion of the shorthand is %%r" %% (out, want)\n' % (conc, want, conc))
+                v = unit_violation(PROP, {'kind': 'shorthand'}, 'expand_data_card(%r) = %r, expansion is %r' % (toks, got, ref_), code2)
+                if v:
+                    res['violations'].append(v)
+                else:
+                    res['inconclusive'].append('shorthand mismatch on symbolic values not reproduced with small integers: %r' % (toks,))
     return res
 
 
@@ -178,7 +204,7 @@ def lemma_unit(name, timeout):
     elif 'false when calling' in out or 'error:' in out and 'when calling' in out:
         from ..common import unit_violation
         import re as _re
-        m = _re.search(r'when calling (\w+\(.*\))', out)
+        m = _re.search(r'when calling (\w+\(.*?\))(?: \(which|\s*$)', out, _re.M)
         call = m.group(1) if m else None
         v = None
         if call:
@@ -198,6 +224,8 @@ def tasks_for(tier):
         out.append(('deck', ('c01', (base + i, 2 + i % 3, 2 + i % 3, 1 + i % 4), base + i, False)))
         out.append(('deck', ('c05', (base + i, 1 + i % 2, i % 3 == 0, c05.SPELL[i % len(c05.SPELL)], ['slab', 'two', 'sphere'][i % 3]), base + i, False)))
         out.append(('deck', ('c12', (base + i, 2 + i % 3, ['card', 'data', 'mix', 'data2'][i % 4]), base + i, False)))
+        if i % 2 == 0:
+            out.append(('deck', ('c15', (base + i, ['level0', 'chain', 'universe', 'fill'][(i // 2) % 4]), base + i, False)))
     for i in range(4 if tier == 'quick' else 24):
         out.append(('deck', ('c01', (base + i, 3, 3, 2), base + 7 * i, True)))
     for i in range(8 if tier == 'quick' else 40):
